@@ -125,6 +125,119 @@ func ruleSelf(c *Ctx) {
 			l.add("R-SELF", "v5", key, b.rel(get.Pos()), Discharged, "the empty key returns nil or a fresh node whose doc/ary field is the receiver itself", true)
 		}
 	}
+	// every container installed as the root has its self set (so that the empty token can denote it)
+	if ai := b.findApply(); ai != nil {
+		for _, fn := range b.srcFuncs(b.Lib) {
+			n := 0
+			allInstrs(fn, func(i ssa.Instruction) {
+				st, ok := i.(*ssa.Store)
+				if !ok {
+					return
+				}
+				if !isNamed(derefPtr(st.Addr.Type()), "container") {
+					return
+				}
+				if _, isParam := st.Addr.(*ssa.Parameter); !isParam {
+					if _, isAlloc := st.Addr.(*ssa.Alloc); !isAlloc {
+						return
+					}
+				}
+				v := unwrapConv(st.Val)
+				tn := derefNamed(v.Type())
+				if tn == nil || (tn.Obj().Name() != "partialDoc" && tn.Obj().Name() != "partialArray") {
+					return
+				}
+				n++
+				key := fmt.Sprintf("%s: root store #%d installs a container whose self is set", fname(fn), n)
+				ok2 := false
+				// (a) a composite literal that sets self
+				if al, isAl := v.(*ssa.Alloc); isAl {
+					for _, ref := range *al.Referrers() {
+						if fa, ok := ref.(*ssa.FieldAddr); ok && fieldName(fa.X.Type(), fa.Field) == "self" {
+							for _, r2 := range *fa.Referrers() {
+								if s2, ok := r2.(*ssa.Store); ok && !isNilConst(s2.Val) {
+									ok2 = true
+								}
+							}
+						}
+					}
+				}
+				// (b) a store to <same container>.self dominates
+				allInstrs(fn, func(j ssa.Instruction) {
+					s2, ok := j.(*ssa.Store)
+					if !ok || isNilConst(s2.Val) {
+						return
+					}
+					fa, ok := s2.Addr.(*ssa.FieldAddr)
+					if !ok || fieldName(fa.X.Type(), fa.Field) != "self" {
+						return
+					}
+					same := fa.X == v
+					if b1, f1, ok1 := fieldLoad(fa.X); ok1 {
+						if b2, f2, ok2b := fieldLoad(v); ok2b && b1 == b2 && f1 == f2 {
+							same = true
+						}
+					}
+					if same && b.instrDominates(s2, st) {
+						ok2 = true
+					}
+					// the store is skipped only when the container itself is nil (the null root)
+					if same && !ok2 {
+						for _, bb := range fn.Blocks {
+							iff, isIf := bb.Instrs[len(bb.Instrs)-1].(*ssa.If)
+							if !isIf {
+								continue
+							}
+							x, nnTrue, isNil := nilTestOfCond(iff.Cond)
+							if !isNil {
+								continue
+							}
+							b1, f1, ok1 := fieldLoad(x)
+							b2, f2, ok2b := fieldLoad(v)
+							if !ok1 || !ok2b || b1 != b2 || f1 != f2 {
+								continue
+							}
+							nn := 1
+							if nnTrue {
+								nn = 0
+							}
+							if edgeDominates(bb, nn, s2.Block()) && bb.Dominates(st.Block()) {
+								ok2 = true
+							}
+						}
+					}
+				})
+				// (c) a phi of such values (the apply function's pd)
+				if phi, isPhi := v.(*ssa.Phi); isPhi {
+					all := true
+					for _, e := range phi.Edges {
+						al, isAl := unwrapConv(e).(*ssa.Alloc)
+						if !isAl {
+							all = false
+							continue
+						}
+						has := false
+						for _, ref := range *al.Referrers() {
+							if fa, ok := ref.(*ssa.FieldAddr); ok && fieldName(fa.X.Type(), fa.Field) == "self" {
+								has = true
+							}
+						}
+						if !has {
+							all = false
+						}
+					}
+					if all {
+						ok2 = true
+					}
+				}
+				if ok2 {
+					l.add("R-SELF", "v5", key, b.posOf(st), Discharged, "the installed container is a literal with self set, or its self is stored before it becomes the root", true)
+				} else {
+					l.add("R-SELF", "v5", key, b.posOf(st), Violated, "the container installed as the root has no self: the empty reference token then yields nothing, e.g. `replace \"\" {…}` followed by `copy from \"\"` inserts null instead of a copy of the document", true)
+				}
+			})
+		}
+	}
 	// the snapshot node itself is never handed out: a loaded `self` pointer is only
 	// compared with nil or dereferenced for its text
 	bad := ""
